@@ -24,6 +24,8 @@ type Req struct {
 	Cls string `json:"cls"`
 	Old string `json:"old"`
 	New string `json:"new"`
+	// NewChars: the new name as a sequence of characters (filled in by the harness)
+	NewChars []string `json:"newChars"`
 }
 
 type Case struct {
@@ -59,10 +61,19 @@ type TypeM struct {
 	Fns  []FnM  `json:"fns"`
 }
 
-type Text struct {
-	Path   string   `json:"path"`
+// a line that carries at least one site, as sequences of single characters (code points), so that the
+// Reference splices by character whatever the encoding unit of the checker's strings is
+type SiteLine struct {
+	Line   int      `json:"line"`
 	Before []string `json:"before"`
 	After  []string `json:"after"`
+}
+
+type Text struct {
+	Path      string     `json:"path"`
+	Before    []string   `json:"before"`
+	After     []string   `json:"after"`
+	SiteLines []SiteLine `json:"siteLines"`
 }
 
 type Record struct {
@@ -103,6 +114,14 @@ func canon(nodes []core_domain.CodeDataStruct) []TypeM {
 	return out
 }
 
+func chars(line string) []string {
+	out := []string{}
+	for _, r := range line {
+		out = append(out, string(r))
+	}
+	return out
+}
+
 func readLines(p string) []string {
 	b, err := os.ReadFile(p)
 	if err != nil {
@@ -125,6 +144,7 @@ func one(raw json.RawMessage) interface{} {
 	}
 	defer os.RemoveAll(scratch)
 	root := filepath.Join(scratch, "proj")
+	c.Req.NewChars = chars(c.Req.New)
 	rec := Record{Case: c.Case, Req: c.Req, Texts: []Text{}, Sites: []Site{}, Model1: []TypeM{}, Model2: []TypeM{}}
 	index := map[string]int{}
 	for _, f := range c.Files {
@@ -133,7 +153,7 @@ func one(raw json.RawMessage) interface{} {
 		os.MkdirAll(filepath.Dir(p), 0o755)
 		os.WriteFile(p, []byte(text), 0o644)
 		if javaproj.Selected(f) {
-			rec.Texts = append(rec.Texts, Text{Path: p})
+			rec.Texts = append(rec.Texts, Text{Path: p, SiteLines: []SiteLine{}})
 			index[p] = len(rec.Texts)
 		}
 	}
@@ -191,6 +211,23 @@ func one(raw json.RawMessage) interface{} {
 	p1, msg1 := lib.Guard(func() { rename.RenameMethodApp(deps).Refactoring(conf) })
 	for i := range rec.Texts {
 		rec.Texts[i].After = readLines(rec.Texts[i].Path)
+	}
+	for _, st := range rec.Sites {
+		t := &rec.Texts[st.File-1]
+		dup := false
+		for _, sl := range t.SiteLines {
+			if sl.Line == st.Line {
+				dup = true
+			}
+		}
+		if dup || st.Line < 1 || st.Line > len(t.Before) {
+			continue
+		}
+		sl := SiteLine{Line: st.Line, Before: chars(t.Before[st.Line-1]), After: []string{}}
+		if st.Line <= len(t.After) {
+			sl.After = chars(t.After[st.Line-1])
+		}
+		t.SiteLines = append(t.SiteLines, sl)
 	}
 	if p1 {
 		rec.Panic, rec.Note = true, "rename: "+msg1
@@ -283,7 +320,11 @@ func gen(seed int64, n int, tier string) []interface{} {
 					if dup {
 						continue
 					}
-					f.Imports = append(f.Imports, javagen.Import{Pkg: tf.Pkg, Name: tf.Unit.Name})
+					if r.Intn(3) == 0 { // reach the class through a wildcard import of its package
+						f.Imports = append(f.Imports, javagen.Import{Pkg: tf.Pkg, Name: "*"})
+					} else {
+						f.Imports = append(f.Imports, javagen.Import{Pkg: tf.Pkg, Name: tf.Unit.Name})
+					}
 				}
 				site = func() javagen.Expr { return callOn("var", pn, old) }
 			}
@@ -292,7 +333,7 @@ func gen(seed int64, n int, tier string) []interface{} {
 			case 0:
 				e = site()
 			case 1: // two sites on one line, a multi-byte literal before them
-				e = callOn("none", "", "log", javagen.Expr{K: "lit", Text: "\"größe 注释\""}, site(), site())
+				e = callOn("none", "", "log", javagen.Expr{K: "lit", Text: []string{"\"größe 注释\"", "\"\U0001F600 ok \U0001D11E\""}[r.Intn(2)]}, site(), site())
 			case 2: // nested
 				s1 := site()
 				s1.Args = []javagen.Expr{site(), {K: "lit", Text: "1"}}
